@@ -8,6 +8,7 @@ from ..absint import Const, Obj, Tup, explore, vkey
 from ..core import Unrecognised
 from ..lin import Lin
 from ..repo import chain, params, src, strip_docstring, walk_no_nested, calls
+from ..localroles import rename, discover, by_roles, cli_main, name_of, unique, calls_to, assigned_names
 
 
 def run(repo, report, tier):
